@@ -48,6 +48,24 @@ Proof.
 Qed.
 Print Assumptions C08_auto_keys_cover.
 
+(* Tie T for the ALGORITHM: `possible_json_keys_src` / `normalize_src` are translated by
+   harness/tables/AutoKeysAlg.py from the CURRENT source text of utils/string_conv.py on every
+   run and equal the model for every field name; the cover theorem is restated over the
+   translated function (the casing functions it calls stay hand-written models). *)
+From DW Require Import T_AutoKeysAlg AutoKeysSrcTie.
+Theorem C08_auto_keys_source_tie :
+  (forall f, possible_json_keys_src f = possible_json_keys f) /\ (forall s, normalize_src s = normalize s).
+Proof. exact (conj possible_json_keys_src_eq normalize_src_eq). Qed.
+Print Assumptions C08_auto_keys_source_tie.
+
+Theorem C08_auto_keys_cover_src :
+  forall n c, canonical_snake n -> c <> Screaming ->
+  exists k ks, apply_casing c n = Some k /\ possible_json_keys_src n = Some ks /\ (k = n \/ In k ks).
+Proof.
+  intros n c Hn Hc. rewrite possible_json_keys_src_eq. exact (C08_auto_keys_cover n c Hn Hc).
+Qed.
+Print Assumptions C08_auto_keys_cover_src.
+
 (* ---- object paths (KeyPath / path_field / AliasPath strings) ---------------- *)
 From DW Require Import T_ObjPath ObjPath ObjPathProofs.
 
